@@ -84,7 +84,7 @@ def describe_cfg(fast, fresh, oncb, creators, threads):
             "threads": [[ops.get(o, o) for o in t] for t in threads]}
 
 
-SMALL_LAYOUTS = [[[1], [2]], [[1, 2]], [[2, 1]], [[2, 1, 2]], [[2, 1, 2, 2]], [[1], [2, 2, 2]], [[1], [2, 2]], [[1], [2], [2]], [[1, 1], [2]], [[1], [1], [2]]]
+SMALL_LAYOUTS = [[[1], [2]], [[1, 2]], [[2, 1]], [[2, 1, 2]], [[2, 1, 2, 2]], [[1], [2, 2, 2]], [[2, 1, 2], [2]], [[2, 1], [2], [2]], [[1], [2, 2]], [[1], [2], [2]], [[1, 1], [2]], [[1], [1], [2]]]
 L22 = [[[1], [1], [2], [2]], [[1, 1], [2, 2]], [[1, 2], [2, 1]], [[1], [1, 2], [2]], [[1, 1], [2], [2]], [[1], [1], [2, 2]],
        [[1, 2], [1, 2]], [[2, 1], [2, 1]]]
 L33 = [[[1], [1], [1], [2], [2], [2]], [[1, 1, 1], [2, 2, 2]], [[1, 2], [1, 2], [1, 2]], [[1, 1, 1], [2], [2], [2]],
@@ -139,34 +139,58 @@ def jobs_for(chk):
 # one batch of harness work, executed in a worker process
 # ----------------------------------------------------------------------------------------------
 def direct_check(events):
-    """The property on the implementation's observations only (no model, no flag): a requester publishes source
-    version k (event REQ_SET carries k) and then calls request_reload(); once that call has returned (g == -2),
-    every acquire_env that starts afterwards must hand out an environment whose template shows a source version >= k.
+    """The property on the implementation's observations only (no model, no flag).
+    no_lost_request: a requester publishes source version k (event REQ_SET carries k) and then calls request_reload();
+      once that call has returned (g == -2), every acquire_env that STARTS afterwards (its first step, whichever lock
+      that takes) must hand out an environment whose templates show a source version >= k.
+    guard_excludes: no creator start / second guard while a guard is out; the guard dereferences to the same environment at the drop.
+    no_spurious_rebuild: every rebuild (creator call, or cache clear with fast reload) needs its own reason: there are at most
+      1 (nothing cached yet) + failed/panicked creator calls (still nothing cached / flag restored) + requests that took effect
+      + flag restores + "stale" answers of the freshness callback of them.
     Returns list of violated clauses."""
     pend = {}
     retmax = 0
     need = {}
+    in_acq = {}
     held = None
     bad = []
+    rebuilds = reasons = 0
+    reasons = 1
     for (t, p, a, g, v, w) in events:
         if p == 1:
             pend[t] = a
+            if g != -3:
+                reasons += 1
         if g == -2:
             retmax = max(retmax, pend.get(t, 0))
-        if p == 3:
+        if p in (3, 4, 5, 6) and not in_acq.get(t):
+            in_acq[t] = True      # first step of an acquire_env
             need[t] = retmax
-        elif p == 7 and held is not None:
-            bad.append("guard_excludes: creator started while a guard was held")
+        if p == 7:
+            rebuilds += 1
+            if held is not None:
+                bad.append("guard_excludes: creator started while a guard was held")
+        if p == 6 and g > 0:
+            rebuilds += 1
+        if (p == 8 and a == 0) or p == 14 or p == 9:
+            reasons += 1
+        if p == 11 and a % 4 == 2:
+            reasons += 1
         if p == 10:
             if held != (t, g, v, w):
                 bad.append("guard_excludes: guard of thread %d dereferenced to (gen %d, requests %d, source version %d) at drop, acquired %s" % (t, g, v, w, held))
             held = None
+            in_acq[t] = False
         elif g > 0:
             if held is not None:
                 bad.append("guard_excludes: environment handed out while another guard was held")
             held = (t, g, v, w)
             if w < need.get(t, 0):
                 bad.append("no_lost_request: thread %d was handed generation %d showing source version %d although the request_reload for version %d had returned before its acquire_env started" % (t, g, w, need[t]))
+        elif g in (-1, -3) and in_acq.get(t) and p != 1 and p != 2:
+            in_acq[t] = False
+    if rebuilds > reasons:
+        bad.append("no_spurious_rebuild: %d rebuilds (creator calls / cache clears) but only %d reasons (1 initial build + requests that took effect + failed creator calls + flag restores + stale answers of the freshness callback)" % (rebuilds, reasons))
     return bad
 
 
@@ -263,7 +287,9 @@ def work(job, watchdog_s=None, deadline=None):
         if tot[2] != 0:
             # only possible for a hand-written / replayed schedule: the harness then took the lowest enabled thread instead
             res["hist"]["replayed schedule named a thread that was not enabled (lowest enabled thread taken instead)"] += 1
-        if bad or sbad:
+        # a failing input is reported when the direct evaluation of the observations fails; the extracted spec alone can only
+        # fail on a trace that is not a run of the model (spec_holds_on_every_run) - that is reported as a disagreement below
+        if bad:
             if len(res["viol"]) < 3:
                 res["viol"].append({"case": case, "events": events, "direct": bad, "spec": sbad})
         # Python and Coq evaluate the same guard clause: they must agree (no_lost_request is evaluated on different
@@ -271,9 +297,9 @@ def work(job, watchdog_s=None, deadline=None):
         if any(b.startswith("guard") for b in bad) != ("guard_excludes" in sbad):
             if len(res["incons"]) < 3:
                 res["incons"].append({"case": case, "direct": bad, "spec": sbad})
-        ok_model = (m[:1] == [0]) and tot[0] == m[1] + m[2] and tot[1] == m[3]
+        ok_model = (m[:1] == [0]) and tot[0] == m[1] + m[2] and tot[1] == m[3] and not sbad
         if not ok_model and len(res["mismatch"]) < 3:
-            res["mismatch"].append({"case": case, "events": events, "model": m, "loads": tot[0], "oncb_calls": tot[1]})
+            res["mismatch"].append({"case": case, "events": events, "model": m, "loads": tot[0], "oncb_calls": tot[1], "spec_clauses_failing": sbad})
         where = classify(events)
         hkey = hashlib.sha256(r[0].encode()).digest()[:8]  # configuration + complete schedule (determines the trace)
         res["distinct"].add(hkey)
